@@ -236,6 +236,10 @@ pub fn dispatch(a: &Args) -> Option<(Acc, RunMeta)> {
             let acc = c17::run(a);
             Some((acc, meta(a, "path tuples (2-4 threads, depth 1-4 over names {a,b}, prefixes of every length shared) of concurrent create_dir_all calls; MemoryFS, Alt(Mem), Ovl[Mem,Mem], Alt(Ovl[Mem,Mem]) under the baton scheduler (depth-first sweep of ALL schedules per tuple while it fits the cap, else random + PCT) with yield points before every MemoryFS lock acquisition; PhysicalFS, Alt(Phys), Ovl[Phys,Phys] free-running with barrier start and random yield/spin/sleep injected at the PhysicalFS::create_dir hook; every call must return Ok and afterwards every requested path and ancestor must be a directory; distinct = distinct schedules (baton) + distinct physical rounds", &["baton mode preempts only at hooked lock acquisitions; physical rounds sample real preemption", "no concurrent removals and no files in the way (as the property states)"])))
         }
+        "C07strace" => {
+            let acc = c07::run_strace_workload(a);
+            Some((acc, meta(a, "strace workload", &[])))
+        }
         "C11" => {
             let acc = c11::run(a);
             Some((acc, meta(a, "per case: generated source tree (depth<=4, empty directories, binary files 0..20000 bytes incl. the 8 KiB boundary; on overlays partly in a lower layer) on filesystem A and a generated destination filesystem B (same instance, a twin instance of the same configuration, or another backend from {Mem, Phys, Alt(Mem), Alt(Phys), Ovl}); 1-4 operations from create_dir_all/remove_dir_all/copy_file/move_file/copy_dir/move_dir with destinations: free name, existing entry, missing parent, below a file, the root; full snapshots of both filesystems before/after vs the pair model; call log of the top-level wrapper classifies the route (fast path / NotSupported fallback / cross-instance stream copy); coverage floor: every route taken; distinct = distinct observable state pairs", ENGINE_ASSUMPTIONS)))
